@@ -64,22 +64,22 @@ type task struct {
 
 // Sched runs tasks one at a time.
 type Sched struct {
-	tasks    []*task
-	yield    chan *task
-	cur      *task
-	Choose   func(n int, labels []string) int
+	tasks  []*task
+	yield  chan *task
+	cur    *task
+	Choose func(n int, labels []string) int
 	// ChooseT, when set, is used instead of Choose; returning -1 abandons the run (used by the
 	// partial-order-reducing explorer when every enabled transition is asleep).
 	ChooseT   func(ts []TInfo) int
 	Abandoned bool
-	Trace    []string
-	Problems []string
-	Steps    int
-	MaxSteps int
-	nchan    int
-	Deadlock bool
-	Blocked  []string // tasks still blocked at the end
-	aborted  bool
+	Trace     []string
+	Problems  []string
+	Steps     int
+	MaxSteps  int
+	nchan     int
+	Deadlock  bool
+	Blocked   []string // tasks still blocked at the end
+	aborted   bool
 }
 
 // New returns a scheduler using the given chooser (index among n enabled transitions).
